@@ -9,7 +9,9 @@
 //	     md      MD literal passed to NewOutgoingContext  [n, (key, nvals, vals...)...]
 //	     kvs     argument lists of successive AppendToOutgoingContext calls [n, (key, val)...]
 //	     H, T    MD literals the handler passes to grpc.SetHeader / grpc.SetTrailer
-//	obs [code, called] ++ dump(handler's FromIncomingContext) ++ dump(client Header) ++ dump(client Trailer)
+//	obs [code, called, sent] ++ dump(handler's FromIncomingContext) ++ dump(client Header) ++ dump(client Trailer)
+//	     sent = 1 iff the client's stats handler saw an OutHeader event for this RPC, i.e. the
+//	     request header fields were handed to the wire
 //
 // dump = [nkeys, (key, nvals, vals...)...] keys sorted; an absent MD dumps as [0].
 // Transport constants are abbreviated: the user-agent value "grpc-go/<Version>" is
@@ -21,12 +23,14 @@ import (
 	"context"
 	"net"
 	"sort"
+	"sync/atomic"
 	"testing"
 	"time"
 
 	"google.golang.org/grpc"
 	"google.golang.org/grpc/credentials/insecure"
 	"google.golang.org/grpc/metadata"
+	"google.golang.org/grpc/stats"
 	"google.golang.org/grpc/status"
 	"google.golang.org/grpc/test/bufconn"
 	"google.golang.org/protobuf/types/known/emptypb"
@@ -130,7 +134,20 @@ type vMDWireCall struct {
 	got    metadata.MD
 }
 
+// vMDWireStats counts the header blocks the client transport wrote.
+type vMDWireStats struct{ outHeaders int64 }
+
+func (h *vMDWireStats) TagRPC(ctx context.Context, _ *stats.RPCTagInfo) context.Context { return ctx }
+func (h *vMDWireStats) HandleRPC(_ context.Context, s stats.RPCStats) {
+	if oh, ok := s.(*stats.OutHeader); ok && oh.Client {
+		atomic.AddInt64(&h.outHeaders, 1)
+	}
+}
+func (h *vMDWireStats) TagConn(ctx context.Context, _ *stats.ConnTagInfo) context.Context { return ctx }
+func (h *vMDWireStats) HandleConn(context.Context, stats.ConnStats)                       {}
+
 type vMDWireEnv struct {
+	st   *vMDWireStats
 	cc   *grpc.ClientConn
 	srv  *grpc.Server
 	cur  *vMDWireCall
@@ -162,14 +179,15 @@ var vMDWireDesc = grpc.ServiceDesc{
 }
 
 func vMDWireStart() *vMDWireEnv {
-	env := &vMDWireEnv{}
+	env := &vMDWireEnv{st: &vMDWireStats{}}
 	lis := bufconn.Listen(1 << 20)
 	env.srv = grpc.NewServer()
 	env.srv.RegisterService(&vMDWireDesc, env)
 	go env.srv.Serve(lis)
 	cc, err := grpc.NewClient("passthrough:///bufnet",
 		grpc.WithContextDialer(func(ctx context.Context, _ string) (net.Conn, error) { return lis.DialContext(ctx) }),
-		grpc.WithTransportCredentials(insecure.NewCredentials()))
+		grpc.WithTransportCredentials(insecure.NewCredentials()),
+		grpc.WithStatsHandler(env.st))
 	if err != nil {
 		panic(err)
 	}
@@ -222,6 +240,7 @@ func vMDWireExec(cfg []int64, ops [][]int64) ([][]int64, bool, []string) {
 				ctx = metadata.AppendToOutgoingContext(ctx, kv...)
 			}
 			var hdr, trl metadata.MD
+			sent0 := atomic.LoadInt64(&env.st.outHeaders)
 			done := make(chan error, 1)
 			go func() {
 				done <- env.cc.Invoke(ctx, "/verif.MDWire/U", &emptypb.Empty{}, &emptypb.Empty{}, grpc.Header(&hdr), grpc.Trailer(&trl))
@@ -235,7 +254,7 @@ func vMDWireExec(cfg []int64, ops [][]int64) ([][]int64, bool, []string) {
 				tagset["timeout"] = true
 			}
 			code := int64(status.Code(err))
-			o = vCat([]int64{code, vB(c.called)}, vMDWireDump(c.got), vMDWireDump(hdr), vMDWireDump(trl))
+			o = vCat([]int64{code, vB(c.called), atomic.LoadInt64(&env.st.outHeaders) - sent0}, vMDWireDump(c.got), vMDWireDump(hdr), vMDWireDump(trl))
 			if c.called {
 				bin := false
 				for k, v := range c.got {
